@@ -26,6 +26,26 @@ def gen_case(rng, k):
         rng.shuffle(idirs)
         spell = [rng.choice(["canon", "dotdot", "dot", "symlink", "trailing"]) for _ in idirs]
         return {"files": files, "idirs": idirs, "spell": spell}
+    if k % 7 == 3:
+        # a file that includes its own bare name and is itself the first match for it, with a file of
+        # the same name further down the search path (and, sometimes, the main file doing the same):
+        # first match means itself - a one-file cycle - never "the next one"
+        nm = rng.choice(NAMES)
+        files = {"p/main.idl": {"includes": [nm], "garbage": False},
+                 "i1/%s" % nm: {"includes": [nm], "garbage": False},
+                 "i2/%s" % nm: {"includes": [], "garbage": False}}
+        v = rng.randint(0, 2)
+        if v == 1:
+            # the main file includes its own name; its directory is searched first
+            files = {"p/main.idl": {"includes": ["main.idl"], "garbage": False}, "i1/main.idl": {"includes": [], "garbage": False}}
+            idirs = ["p", "i1"]
+        elif v == 2:
+            files["p/%s" % nm] = {"includes": [], "garbage": False}     # shadowed by i1 (searched before the main directory)
+            idirs = ["i1", "i2"]
+        else:
+            idirs = ["i1", "i2"]
+        spell = [rng.choice(["canon", "dotdot", "dot", "symlink", "trailing"]) for _ in idirs]
+        return {"files": files, "idirs": idirs, "spell": spell}
     if k % 5 == 4:
         # a file reached through a path with a directory part, in a directory that is neither an -I
         # directory nor the main file's: its own BARE includes are searched in the -I directories and
